@@ -102,7 +102,7 @@ def plan(pid, tier, seed, fx):
             for pre in prefixes(fx, f):
                 jobs.append({"fixtures": [f], "prefix": pre, "programs": programs(rng, A, 2, 2, nprog),
                              "strategy": {"kind": "dfs", "max_schedules": 120 if thorough else 40, "preempt": 2},
-                             "probe": probe_for(fx, f) if pid == "C18" else [], "hang_ms": 4000})
+                             "probe": probe_for(fx, f) if pid == "C18" else [], "hang_ms": 20000})
             # same-key races, exhaustively over a small alphabet (both threads hit the same entries)
             cn = fx[f]["cache_name"]
             small = [call(f, 1), call(f, 2), {"op": "inv_with", "x": cn, "sel": ["1"]}]
@@ -121,21 +121,21 @@ def plan(pid, tier, seed, fx):
             for pre in prefixes(fx, f)[1:]:
                 jobs.append({"fixtures": [f], "prefix": pre, "programs": progs,
                              "strategy": {"kind": "dfs", "max_schedules": 200 if thorough else 60, "preempt": 2},
-                             "probe": probe_for(fx, f) if pid == "C18" else [], "hang_ms": 4000})
+                             "probe": probe_for(fx, f) if pid == "C18" else [], "hang_ms": 20000})
             if thorough:
                 jobs.append({"fixtures": [f], "prefix": prefixes(fx, f)[1], "programs": programs(rng, A, 3, 2, 60),
                              "strategy": {"kind": "dfs", "max_schedules": 150, "preempt": 2},
-                             "probe": probe_for(fx, f) if pid == "C18" else [], "hang_ms": 4000})
+                             "probe": probe_for(fx, f) if pid == "C18" else [], "hang_ms": 20000})
             jobs.append({"fixtures": [f], "prefix": prefixes(fx, f)[-1], "programs": programs(rng, A, 3 if thorough else 2, 3, 25 if thorough else 8),
                          "strategy": {"kind": "random", "max_schedules": 200 if thorough else 40, "seed": seed},
-                         "probe": probe_for(fx, f) if pid == "C18" else [], "hang_ms": 4000})
+                         "probe": probe_for(fx, f) if pid == "C18" else [], "hang_ms": 20000})
     elif pid == "C03":
         for f in ("s_plain", "a_plain"):
             A = [call(f, 1), call(f, 2)]
             for nt, ml, n in ((2, 2, 40), (3, 1, 8), (3, 2, 60 if thorough else 20)):
                 jobs.append({"fixtures": [f], "prefix": [], "programs": programs(rng, A, nt, ml, n),
                              "strategy": {"kind": "dfs", "max_schedules": 400 if thorough else 120, "preempt": 3 if thorough else 2},
-                             "probe": [], "hang_ms": 4000})
+                             "probe": [], "hang_ms": 20000})
     elif pid == "C15":
         for f in ("s_plain", "a_plain", "s_lru2", "a_lru2", "s_fifo3_ttl2", "a_fifo3_ttl2", "s_lfu2", "a_lfu2", "g_alias",
                   "g_alias_async", "s_res_lru2", "a_res_lru2"):
@@ -143,7 +143,7 @@ def plan(pid, tier, seed, fx):
             for pre in prefixes(fx, f)[:3]:
                 jobs.append({"fixtures": [f], "prefix": pre, "programs": programs(rng, A, 2, 2, 60 if thorough else 20),
                              "strategy": {"kind": "dfs", "max_schedules": 150 if thorough else 40, "preempt": 2},
-                             "probe": [{"op": "stats_get", "x": fx[f]["cache_name"]}], "hang_ms": 4000})
+                             "probe": [{"op": "stats_get", "x": fx[f]["cache_name"]}], "hang_ms": 20000})
     return jobs
 
 
